@@ -26,12 +26,12 @@ def run(ctx):
     cov = {"evaluations": int(ev), "distinct_nontrivial": int(c.get("distinct_nontrivial", 0)),
            "rule": "parse: every string of <= %d tokens over a 27-token alphabet (< > / = \" ' ? ! - & ; # a b SP LF CR 1 x <!-- --> <? ?> </ /> &amp; &#65;) "
                    "through both entry points, exactly sized heap copy under ASan, time and memory watchdog, error line/column against the line structure; "
-                   "nesting 1..1000; round trip: element trees with <= 3 elements, <= 2 attributes, values of <= %d tokens over {a \" ' & < > LF CR SP e-acute "
+                   "nesting 1..1000 (plain, and with an empty / a non-empty sibling on every level); round trip: element trees with <= 3 elements, <= 2 attributes, values of <= %d tokens over {a \" ' & < > LF CR SP e-acute "
                    "&#65; &amp;}, non-blank non-adjacent text of <= %d tokens over {a SP / = \" & < LF}; every byte prefix of every serialised tree and of every document with a multi-line comment (truncation inside delimiters, entities, quoted values); bytes: every 7-bit character XML allows, alone / between letters / doubled, as attribute value and as text; sizes: attribute values and texts a^{0,1} c^n z^{0,1,3} for every "
-                   "escaped character c and n = 0..%d (every reallocation point of the escaper); comments: every tree serialised by the harness with "
+                   "escaped character c and n = 0..%d (every reallocation point of the escaper), and wide trees with n = 0..%d and 2^k-1, 2^k, 2^k+1 (k = 8..14) children of three kinds; comments: every tree serialised by the harness with "
                    "one of three comment forms at every token boundary (white-space separated inside tags) and processing instructions with a line break "
                    "before the root; parser reuse: every pair (first document of <= %d tokens, second of <= %d tokens) parsed by one Xml::Parser into one Element - verdict, tree, error line/column/text of the second parse equal those of a fresh parser; plus the Xml::Variant handle histories (copy, assignment, toElement() on shared values)"
-                   % (p["parse_len"], p["valtok"], p["texttok"], p["sizes"], p["reuse"][0], p["reuse"][1]),
+                   % (p["parse_len"], p["valtok"], p["texttok"], p["sizes"], p["sizes"], p["reuse"][0], p["reuse"][1]),
            "exhaustive": True, "bounds": p, "handle_states": int(c.get("states", 0)), "reuse_pairs": int(c.get("reuse_pairs", 0)),
            "parse_accepted": int(c.get("parse_accepted", 0)), "parse_rejected": int(c.get("parse_rejected", 0))}
     return ctx.finish("exploration", cov, ["inputs are NUL-terminated", "comments inside tags are separated from names by white space"], tags=["C16"])
